@@ -127,7 +127,7 @@ var zzVMCaseNames = []string{
 	"ITERPUSH", "ITERPOP", "NOT", "RETURN", "SETINDEX", "INDEX", "SETDICT", "SETDICTUNIQ", "APPEND", "SLICE",
 	"INPLACE_ADD", "INPLACE_ADD_list", "INPLACE_PIPE", "INPLACE_PIPE_dict", "MAKEDICT",
 	"JMP", "CJMP", "ITERJMP_next", "ITERJMP_done",
-	"CONSTANT", "MAKETUPLE", "MAKELIST", "MAKEFUNC", "LOAD",
+	"CONSTANT", "CONSTANT_wide", "MAKETUPLE", "MAKELIST", "MAKEFUNC", "LOAD",
 	"SETLOCAL", "SETGLOBAL", "LOCAL", "FREE", "FREECELL", "LOCALCELL", "SETLOCALCELL", "GLOBAL", "PREDECLARED", "UNIVERSAL",
 	"ATTR", "SETFIELD", "UNPACK", "CALL", "CALL_VAR", "CALL_KW", "CALL_VAR_KW",
 	"LOCAL_unbound", "GLOBAL_unbound",
@@ -385,6 +385,19 @@ func zzVMMake(name string, e *zzVMEnv) zzVMCase {
 		c.code = []zzVMIns{zzVMK(k)}
 		c.peak, c.nout = 1, 1
 		c.check = func(out Tuple, e *zzVMEnv) bool { return zzVMEq(out[0], c.consts[k-1]) }
+	case "CONSTANT_wide":
+		// operands that need 2 and 3 bytes (7-bit groups), including zero groups
+		ks := []int{127, 128, 129, 300, 16383, 16384, 16512}
+		k := ks[zzChoice("k", len(ks))]
+		c.consts = make([]Value, k)
+		for i := range c.consts {
+			c.consts[i] = None
+		}
+		c.consts[k-2] = B
+		c.consts[k-1] = A
+		c.code = []zzVMIns{zzVMK(k - 1), zzVMK(k)}
+		c.peak, c.nout = 2, 2
+		c.check = func(out Tuple, e *zzVMEnv) bool { return zzVMTupleEq(out, B, A) }
 	case "MAKETUPLE", "MAKELIST":
 		n := zzChoice("n", 4)
 		vals := []Value{A, B, String("c")}[:n]
